@@ -1,7 +1,7 @@
 SPECIFICATION Spec
 CONSTANTS
   NPaths = 3
-  Contents = {"ClsDoc", "ClsPlain", "ClsField", "UseFoo", "GInt", "ReqB", "ClsSub"}
+  Contents = {"ClsDoc", "ClsPlain", "ClsField", "ReqB", "ClsSub"}
   Ops = {"update", "unset", "remove", "reindex"}
   MaxSteps = 3
   EditDist = 3
